@@ -465,6 +465,65 @@ class Norm:
         return ' || '.join(sorted('(' + ' && '.join(sorted(self.show_atom(a) for a in c)) + ')' for c in d))
 
 
+class Unknown(Exception):
+    pass
+
+
+def atom_value(a, val):
+    """truth of a normalised atom under a valuation {expression string: concrete value}; raises Unknown"""
+    if a == TAUT:
+        return True
+    if a == FALSE:
+        return False
+    k = a[0]
+    if k == 'in':
+        if a[1] not in val:
+            raise Unknown(a[1])
+        return val[a[1]] in a[2]
+    if k in ('eq', 'ne'):
+        x, y = a[1], a[2]
+        vx = val.get(x) if isinstance(x, str) else x
+        vy = val.get(y) if isinstance(y, str) else y
+        if isinstance(x, str) and x not in val:
+            raise Unknown(x)
+        if isinstance(y, str) and y not in val:
+            raise Unknown(y)
+        return (vx == vy) == (k == 'eq')
+    if k in ('le', 'ge'):
+        if a[1] not in val:
+            raise Unknown(a[1])
+        return val[a[1]] <= a[2] if k == 'le' else val[a[1]] >= a[2]
+    if k == 'truthy':
+        if a[1] not in val:
+            raise Unknown(a[1])
+        return bool(val[a[1]]) == a[2]
+    if k in ('<', '<='):
+        if a[1] not in val or a[2] not in val:
+            raise Unknown(a[1] if a[1] not in val else a[2])
+        return val[a[1]] < val[a[2]] if k == '<' else val[a[1]] <= val[a[2]]
+    raise Unknown(str(a))
+
+
+def cond_value(nm, node, val):
+    """truth of condition `node` under the valuation, by structural recursion over && || ! and normalised leaves"""
+    c = nm.cval(node)
+    if c is not None:
+        return bool(c)
+    m = nm.resolve(node)
+    ex = nm.expand(m)
+    if ex is not None:
+        return cond_value(ex[0], ex[1], val)
+    if m['k'] == 'BinaryOperator' and m.get('op') in ('&&', '||'):
+        a, b = kids(m)
+        x = cond_value(nm, a, val)
+        if m['op'] == '&&':
+            return x and cond_value(nm, b, val)
+        return x or cond_value(nm, b, val)
+    if m['k'] == 'UnaryOperator' and m.get('op') == '!':
+        return not cond_value(nm, kids(m)[0], val)
+    return atom_value(nm.atom(m), val)
+
+
 def show(atoms):
     if atoms is None:
         return 'false'
